@@ -43,7 +43,12 @@ Logged ==
    /\ St.refc = (IF hasblk' THEN (IF pstate' = "shared" THEN 2 ELSE 1) ELSE 0)
    /\ St.hok = 1 /\ St.sorted = 1 /\ St.gdok = 1
    /\ (ISZ > 128 => St.extra = EXTRA)
-   /\ St.fb = fb0' - BlkAlloc' - DataAlloc'
+   \* a value inode of more than 4 blocks may need one extent index block when the free space is fragmented (layout of
+   \* the value FILE, decided by the allocator, not by ext_attr.c): logged as st.eameta and bounded here
+   /\ St.eameta \in 0..Cardinality({k \in 1..MaxEa : eai'[k].ref > 0 /\ DB(eai'[k].size) > 4})
+   /\ St.fb = fb0' - BlkAlloc' - DataAlloc' - St.eameta
+   \* the inode and the peer name the same block exactly while the block is shared (after a copy-on-write each has its own)
+   /\ St.acleq = B(hasblk' /\ pstate' = "shared")
    /\ St.fi = fi0' - InoAlloc'
    /\ St.iblk = ib0' + chg' * (BS \div 512)
    /\ St.inl = B(inl') /\ St.isize = isize'
